@@ -59,6 +59,8 @@ class PopulationBalanceModel:
         self.originalBins = bins
         self.setBinConstraints(bins, minBins, maxBins)
         
+        self._prevPSD = None
+        self._prevPSDbounds = None
         self.reset()
 
         self._adaptiveBinSize = True
@@ -84,8 +86,10 @@ class PopulationBalanceModel:
 
         #Hidden variable for use in KWNEuler when adaptive time stepping is enabled
         #This allows for PSD to revert to its previous value if a time constraint is not met
-        self._prevPSD = np.zeros(self.bins)
-        self._prevPSDbounds = np.zeros(self.bins+1)
+        #A backup made by createBackup is kept when the grid is reset or re-meshed (changeSizeClasses goes through reset)
+        #Only a fresh model, which has no backup yet, stores its initial empty grid so that revert is always consistent
+        if self._prevPSD is None:
+            self.createBackup()
 
         #Temporary storage for net flux
         #This is used to correct the fluxes once the time step is known
